@@ -404,6 +404,30 @@ def case_integrate(p: dict) -> dict:
     q = _poly(_generic(n, 5), grid, "Cardinal", d, ep)
     q2 = _poly(_generic(n, 5), grid, "Cardinal", d, ep)
     r.true("int-weight-None-equals-1", q.integrate(weight=None) == q2.integrate(weight=1))
+    # integration is an observation, not an update: without a weight (no product array is formed) the polynomial must still be the
+    # same function afterwards - a second integral, the stored grid values and the caller's own array
+    for basis in ("Cardinal", "Chebyshev"):
+        v0 = _generic(n, 6)
+        arr = np.array(v0, dtype=float)
+        keep = arr.copy()
+        q3 = _poly(arr, grid, basis, d, ep)
+        before = np.array(q3.coefficients, dtype=float).copy()
+        basis_before = tuple(q3.basis)
+        ok, first = _try(r, f"int-{basis}-noweight-no-exception", lambda: q3.integrate())
+        if ok:
+            ok2, second = _try(r, f"int-{basis}-noweight-second-no-exception", lambda: q3.integrate())
+            if ok2:
+                r.close(f"int-{basis}-noweight-repeatable", second, first, 64 * EPS * (abs(float(first)) + float(np.sum(np.abs(keep)))))
+            if tuple(q3.basis) == basis_before:  # integrate() documents a change to the Cardinal basis; compare like with like
+                r.close(f"int-{basis}-noweight-leaves-coefficients", np.array(q3.coefficients, dtype=float), before, 64 * EPS * np.max(np.abs(before)))
+            fresh = _poly(keep.copy(), grid, basis, d, ep)
+            xs = np.array([-0.9, -0.3, 0.2, 0.7])
+            try:
+                a = np.array([float(q3.evaluate(np.array([x]))) for x in xs])
+                b = np.array([float(fresh.evaluate(np.array([x]))) for x in xs])
+                r.close(f"int-{basis}-noweight-same-function-afterwards", a, b, 256 * EPS * (np.max(np.abs(b)) + float(np.sum(np.abs(keep)))))
+            except Exception as e:  # evaluate signature differences are not this relation's business
+                r.tag("int-noweight-evaluate-skipped:" + type(e).__name__)
     r.detail.update(in_class=nin, beyond_class=nout, beyond_class_visibly_inexact=nout_seen, D=D)
     r.tag(_tagbase(d, ep), f"weight-family-{ax.fam}")
     if nin == 0:
